@@ -44,4 +44,15 @@ CHECKS["C08"] = dict(
     steps=[dict(name="routing", run="^TestRouting$", quick=1500, thorough=48000, shards_thorough=16)],
 )
 
+CHECKS["C09"] = dict(
+    pkg="c09", race=False, level="exploration", timeout_quick=600, timeout_thorough=2400,
+    technique="bounded-exhaustive enumeration of registration programs + rapid-generated programs, exact expected enter/leave trace and decorator tag order as oracle",
+    level_text="Every registration program with up to 5 (quick) / 6 (thorough) middleware registrations over {router-level, handler A, handler B} with the AddHandler calls at every legal position is executed on a real Router and the complete enter/leave trace of each handler is compared with the expected nesting; random programs (up to 20 registrations, 4 handlers, decorator lists up to 5, handler with the empty name) extend this beyond the bound. Complete below the bound, sampled above it.",
+    level_note="Trusted: the trace recorder middlewares and the expected-order computation in c09_test.go. Registrations after Run are out of scope.",
+    steps=[
+        dict(name="exhaustive", run="^TestExhaustiveRegistrations$", quick=1, thorough=1),
+        dict(name="random", run="^TestRandomRegistrations$", quick=2500, thorough=20000, shards_thorough=12),
+    ],
+)
+
 NOT_APPLICABLE = {}
